@@ -433,12 +433,12 @@ Proof.
   apply cntinv_count_alloc; auto.
 Qed.
 
-Lemma cntinv_fu_from_list pc mrg l w : cntinv pc w -> cntinv pc (snd (fu_from_list P mrg l w)).
+Lemma cntinv_fu_from_list pc mrg h l w : cntinv pc w -> cntinv pc (snd (fu_from_list P mrg h l w)).
 Proof.
   intros H. unfold fu_from_list.
-  assert (H0 : cntinv pc (snd (if mrg then (fu_empty, w) else fu_with_capacity (Nat.max (length l) (pMinCap P)) w))).
+  assert (H0 : cntinv pc (snd (if mrg then (fu_empty, w) else fu_with_capacity (Nat.max h (pMinCap P)) w))).
   { destruct mrg; auto. apply cntinv_fu_with_capacity; auto. }
-  destruct (if mrg then (fu_empty, w) else fu_with_capacity (Nat.max (length l) (pMinCap P)) w) as [u0 w0].
+  destruct (if mrg then (fu_empty, w) else fu_with_capacity (Nat.max h (pMinCap P)) w) as [u0 w0].
   simpl in H0. revert u0 w0 H0. induction l as [|c l IH]; intros u0 w0 H0; simpl; auto.
   pose proof (@cntinv_fu_push pc mrg u0 c w0 H0) as Hp. destruct (fu_push P mrg u0 c w0) as [u1 w1].
   apply IH; auto.
@@ -638,18 +638,18 @@ Proof.
   assert (Hfob : forall cap seed, cntinv 0 (snd (fob_new P cap seed w))).
   { intros. unfold fob_new. specialize (Hn cap). destruct (fub_new cap w) as [f w1]. unfold heap_cap_for.
     cbn [snd] in *. apply cntinv_count_alloc; auto. }
-  assert (Hfu : forall mrg l, cntinv 0 (snd (fu_from_list P mrg l w))) by (intros; apply cntinv_fu_from_list; auto).
+  assert (Hfu : forall mrg h l, cntinv 0 (snd (fu_from_list P mrg h l w))) by (intros; apply cntinv_fu_from_list; auto).
   assert (Hfc : forall n, cntinv 0 (snd (fu_with_capacity n w))) by (intros; apply cntinv_fu_with_capacity; auto).
   destruct t.
   - destruct (p_iter p).
     + specialize (Hl (mk_children inits)). destruct (fub_from_list (mk_children inits) w); auto.
     + specialize (Hn (p_cap p)). destruct (fub_new (p_cap p) w); auto.
   - destruct (p_iter p); [|destruct (p_new p)]; auto.
-    + specialize (Hfu false (mk_children inits)). destruct (fu_from_list P false (mk_children inits) w); auto.
+    + specialize (Hfu false (lazy_hint p (mk_children inits)) (mk_children inits)). destruct (fu_from_list P false (lazy_hint p (mk_children inits)) (mk_children inits) w); auto.
     + specialize (Hfc (p_cap p)). destruct (fu_with_capacity (p_cap p) w); auto.
   - specialize (Hl (mk_children inits)). destruct (fub_from_list (mk_children inits) w); auto.
   - destruct (p_iter p); [|destruct (p_new p)]; auto.
-    + specialize (Hfu true (mk_children inits)). destruct (fu_from_list P true (mk_children inits) w); auto.
+    + specialize (Hfu true (lazy_hint p (mk_children inits)) (mk_children inits)). destruct (fu_from_list P true (lazy_hint p (mk_children inits)) (mk_children inits) w); auto.
     + specialize (Hfc (p_cap p)). destruct (fu_with_capacity (p_cap p) w); auto.
   - destruct (p_iter p).
     + unfold fob_from_list. specialize (Hl (index_children P (mk_children inits) 0)).
@@ -657,8 +657,8 @@ Proof.
     + specialize (Hfob (p_cap p) (seed_of p)). destruct (fob_new P (p_cap p) (seed_of p) w) as [[q|] w1]; auto;
       cbn [snd] in *; try (apply cntinv_emit; auto).
   - destruct (p_iter p); [|destruct (p_new p)]; auto.
-    + unfold fo_from_list. specialize (Hfu false (index_children P (mk_children inits) 0)).
-      destruct (fu_from_list P false (index_children P (mk_children inits) 0) w); auto.
+    + unfold fo_from_list. specialize (Hfu false (lazy_hint p (mk_children inits)) (index_children P (mk_children inits) 0)).
+      destruct (fu_from_list P false (lazy_hint p (mk_children inits)) (index_children P (mk_children inits) 0) w); auto.
     + unfold fo_with_capacity. specialize (Hfc (p_cap p)). destruct (fu_with_capacity (p_cap p) w) as [u w1].
       unfold heap_cap_for. cbn [snd] in *. apply cntinv_count_alloc; auto.
   - specialize (Hn (p_cap p)). destruct (fub_new (p_cap p) w); auto.
